@@ -12,7 +12,15 @@ def run(ctx):
                 raise vlib.Inconclusive("vacuous model: %s" % z)
     binary = ctx.build_driver("framing")
     tpath = os.path.join(ctx.work, "trace.ndjson")
-    rc, out = ctx.run_driver(binary, test_run="^TestTrace$", env={"VERIF_TRACE": tpath})
+    rc, out = ctx.run_driver(binary, test_run="^TestTrace$", env={"VERIF_TRACE": tpath}, ok_rc=(0, 3))
+    if rc == 3 and os.path.exists(tpath + ".hang"):
+        # Recv did not return for this stream although the transport had answered every read (the driver's watchdog ended the process)
+        h = vlib.read_ndjson(tpath + ".hang")[0]
+        ctx.violation("recv:does-not-return", "Recv neither returns a message nor an error within 20 s for the stream %s (chunk plan mode %s/%s): the receiver spins or waits although the transport answers every read" % (
+            json.dumps({k: h[k] for k in ("A", "trunc", "max", "bad")}), h["mode"], h["fixed"]), h)
+        ctx.finish("model_checking", {"evaluations": 1, "distinct_nontrivial": 1, "rule": "the run ended at the first stream for which Recv did not return", "samples": [h]},
+                   assumptions=["incomplete run: the streams after the one that hangs were not replayed"])
+        return
     if rc != 0 or not os.path.exists(tpath):
         raise vlib.Inconclusive("framing driver failed rc=%s\n%s" % (rc, out[-3000:]))
     log = vlib.read_ndjson(tpath)
